@@ -1,5 +1,5 @@
 """C02 -- every format computes the published algorithm bit for bit."""
-from contracts import bigcrypt, md5crypt, shacrypt
+from contracts import bigcrypt, itercrypt, md5crypt, shacrypt
 from pyvc.runner import Bounded, Finite
 
 LEVEL = "other"
@@ -26,7 +26,7 @@ ASSUMPTIONS = [
     "digest primitives, libcrypt, Django, bcrypt are trusted oracles of the bounded comparison",
 ]
 CONTRACTS = [shacrypt.passlib_contract("C02", False), shacrypt.passlib_contract("C02", True), shacrypt.libpass_contract("C02"),
-             md5crypt.contract("C02", False), md5crypt.contract("C02", True), bigcrypt.contract("C02"), bigcrypt.bsdi_key_contract("C02")]
+             md5crypt.contract("C02", False), md5crypt.contract("C02", True), bigcrypt.contract("C02"), bigcrypt.bsdi_key_contract("C02"), itercrypt.phpass_contract("C02"), itercrypt.sha1_crypt_contract("C02")]
 FINITE = [Finite("transposition-tables-published-order", md5crypt.published_tables, "md5-crypt / sha256-crypt / sha512-crypt transposition tables (passlib and libpass) equal the output order of the published algorithms"),
           Finite("sha-crypt-tables-identical", shacrypt.tables_equal, "passlib and libpass carry identical _c_digest_offsets / transposition tables")]
 BOUNDED = [Bounded("c02", "harness/c02.py", descr="~85 formats against independent references, crypt(3), Django, bcrypt, hashlib.scrypt", timeout=900)]
@@ -55,4 +55,11 @@ MUTANTS += [
     ("bigcrypt: last segment of one byte dropped", DC, "        while idx < end:\n            next = idx + 8\n            chk += _raw_des_crypt(secret[idx:next], chk[-11:-9])", "        while idx < end - 1:\n            next = idx + 8\n            chk += _raw_des_crypt(secret[idx:next], chk[-11:-9])", "refute", "bigcrypt"),
     ("bigcrypt: every segment salted from the first digest", DC, "            chk += _raw_des_crypt(secret[idx:next], chk[-11:-9])", "            chk += _raw_des_crypt(secret[idx:next], chk[:2])", "refute", "bigcrypt"),
     ("bigcrypt: segments overlap by one byte", DC, "            chk += _raw_des_crypt(secret[idx:next], chk[-11:-9])", "            chk += _raw_des_crypt(secret[idx - 1:next], chk[-11:-9])", "refute", "bigcrypt"),
+]
+MUTANTS += [
+    ("phpass: one iteration short", "passlib/handlers/phpass.py", "        r = 0\n        while r < real_rounds:", "        r = 1\n        while r < real_rounds:", "refute", "phpass"),
+    ("phpass: password hashed before the running digest", "passlib/handlers/phpass.py", "            result = md5(result + secret).digest()", "            result = md5(secret + result).digest()", "refute", "phpass"),
+    ("sha1_crypt: seed without the rounds field", "passlib/handlers/sha1_crypt.py", "        result = (f\"{self.salt}$sha1${rounds}\").encode(\"ascii\")", "        result = (f\"{self.salt}$sha1$\").encode(\"ascii\")", "refute", "sha1_crypt"),
+    ("sha1_crypt: hmac keyed with the salt", "passlib/handlers/sha1_crypt.py", "        keyed_hmac = compile_hmac(\"sha1\", secret)", "        keyed_hmac = compile_hmac(\"sha1\", self.salt.encode(\"ascii\"))", "refute", "sha1_crypt"),
+    ("sha1_crypt: one round short", "passlib/handlers/sha1_crypt.py", "        for _ in range(rounds):\n            result = keyed_hmac(result)", "        for _ in range(rounds - 1):\n            result = keyed_hmac(result)", "refute", "sha1_crypt"),
 ]
